@@ -44,9 +44,36 @@ def run(ctx):
     ctx.rule('R12.5', 'grouping is total: no size/depth cut-off in the drivers and passes this property relies on', floor=1)
     RT2.check_no_cutoff(ctx, 'R12.5', only={'_group', 'group_period', 'group_as', 'group_aliased', 'group_identifier'})
     RT2.check_recursion_coverage(ctx, 'R12.5', only={'group_period', 'group_as', 'group_aliased', 'group_identifier', 'group_order', 'group_typecasts', 'group_arrays'})
+    check_followers(ctx, V)
     from .. import rules_base as RB
     ctx.rule('R12.B', 'base model: token-type containment, token flags / normal form, Token.match and imt behave as the abstract evaluation assumes', floor=1)
     RB.check_base_model(ctx, 'R12.B', parts=('contains', 'flags', 'match', 'imt'))
+
+
+# Words the SQL grammar allows directly after an object reference in the positions the property lists (select list, FROM
+# list, JOIN, UPDATE / INSERT target, subquery).  group_identifier turns every Name / Symbol token into an Identifier and
+# group_aliased makes an Identifier that follows a reference its alias, so such a word must come out of the lexer as a Keyword
+# type: typed Name it is taken for an implicit alias (`from t offset 10` -> alias OFFSET, has_alias() True).
+FOLLOWERS = ['FROM', 'WHERE', 'GROUP BY', 'ORDER BY', 'HAVING', 'LIMIT', 'OFFSET', 'UNION', 'UNION ALL', 'EXCEPT', 'INTERSECT', 'MINUS',
+             'ON', 'USING', 'JOIN', 'INNER JOIN', 'LEFT JOIN', 'LEFT OUTER JOIN', 'RIGHT JOIN', 'RIGHT OUTER JOIN', 'FULL JOIN',
+             'FULL OUTER JOIN', 'CROSS JOIN', 'NATURAL JOIN', 'SET', 'VALUES', 'RETURNING', 'INTO', 'FETCH', 'FOR', 'WINDOW',
+             'AS', 'AND', 'OR', 'WHEN', 'THEN', 'ELSE', 'END', 'SELECT', 'ASC', 'DESC', 'TABLESAMPLE', 'QUALIFY', 'PIVOT', 'LATERAL']
+
+
+def check_followers(ctx, V):
+    ctx.rule('R12.7', 'a clause word that can follow an object reference is lexed as a Keyword type (never as a name the aliasing pass accepts)', floor=40)
+    kwloc = V.T.kwmod.relpath
+    # the premise: group_aliased accepts an Identifier as the implicit alias
+    ga = ctx.repo.func('sqlparse.engine.grouping.group_aliased')
+    premise = any(isinstance(n, ast.Call) and is_name(n.func, 'isinstance') and len(n.args) == 2 and 'Identifier' in src(n.args[1])
+                  for n in own_nodes(ga.node))
+    ctx.need(premise, 'group_aliased no longer accepts an Identifier as implicit alias (rule R12.7 needs re-reading)')
+    for w in FOLLOWERS:
+        types, broken = V.emit_types(w)
+        bad = sorted(repr(t) for t in types if t[:1] != ('Keyword',))
+        ctx.ob('R12.7', f'follower:{w}', kwloc, f'{w} after a reference is lexed as one Keyword token', not bad and not broken and bool(types),
+               (f'lexed as {bad}: ' if bad else f'not one token in {broken[:2]}: ') +
+               f'`from t {w.lower()} ...` gives the reference t the alias {w} (get_alias() / get_name() return {w!r}, has_alias() is True)')
 
 
 def check_remove_quotes(ctx):
